@@ -148,8 +148,8 @@ def check_jwl(case):
 
 
 OBLIGATIONS = [
-    Obligation('igeos-conservation', ig_case(), check_ig, quick=320, thorough=12000, min_per_shard=4),
-    Obligation('geneos-conservation', gen_case(), check_gen, quick=32, thorough=600, min_per_shard=1, expected_exc=(ValueError,)),
+    Obligation('igeos-conservation', ig_case(), check_ig, quick=320, thorough=6000, min_per_shard=4),
+    Obligation('geneos-conservation', gen_case(), check_gen, quick=32, thorough=320, min_per_shard=1, expected_exc=(ValueError,)),
     Obligation('geneos-jwl-conservation', jwl_case(), check_jwl, quick=16, thorough=200, min_per_shard=1),
 ]
 OBLIGATIONS[1].cost = OBLIGATIONS[2].cost = 50.0
